@@ -20,6 +20,9 @@ if hits:
 # toolchain to work
 sys.exit(0)
 PY
-# independent re-check of the compiled property statements (axiom report kept beside the build)
-( cd coq && timeout 3000 coqchk -silent -o -Q . PC $(ls Properties/*.vo 2>/dev/null | sed 's/\.vo$//; s/^/PC./; s/\//./g') > coqchk.log 2>&1 || echo "coqchk exited non-zero (see coq/coqchk.log)" )
-tail -n 30 coq/coqchk.log || true
+# independent re-check of the compiled property statements with coqchk (axiom report kept
+# beside the build, one log per property, 8 at a time)
+mkdir -p coq/coqchk
+( cd coq && ls Properties/*.vo 2>/dev/null | sed 's/\.vo$//; s/^Properties\///' | \
+  xargs -P 8 -I{} sh -c 'timeout 3000 coqchk -silent -o -Q . PC PC.Properties.{} > coqchk/{}.log 2>&1 || echo "coqchk {} exited non-zero (see coq/coqchk/{}.log)"' )
+for f in coq/coqchk/*.log; do echo "== $f"; sed -n '/CONTEXT SUMMARY/,$p' "$f" | grep -A4 "Axioms" | head -12; done
